@@ -417,8 +417,10 @@ def check(ctx):
     detail = ""
     if len(fb) == 1 and fb[0][0][0] == "phi":
         condt = fb[0][0][1]
-        ok = condt == ("cmp", "is", n("position_keys"), c(None))
-        detail = f"fallback condition {short(condt)}"
+        ok = (condt == ("cmp", "is", n("position_keys"), c(None))
+              and fb[0][0][3] == n("position_keys") and fb[0][0][2][0] == "comp"
+              and any(x[0] == "a" and x[2] == "position_keys" for x in subterms(fb[0][0][2])))
+        detail = f"fallback condition {short(condt)}; given -> {short(fb[0][0][3], 40)}"
     elif len(fb) == 1 and fb[0][0] == n("position_keys"):
         ok, detail = True, "no fallback"
     ctx.ob("C08.R5", einit, "the engine falls back to the kernels' keys only when "
